@@ -314,6 +314,19 @@ func specCocCandOptMax(ten bool, u IntType) IntType {
 	return -1000
 }
 
+// specInherits(vm, ctx): the sub-VM vm runs under its parent's configuration (dice families, statement switch,
+// min/max mode, budget) and draws from its parent's generator.  Function-typed fields cannot be compared in Go and are
+// not part of the predicate.
+func specInherits(vm, ctx *Context) bool {
+	return vm.Config.EnableDiceWoD == ctx.Config.EnableDiceWoD && vm.Config.EnableDiceCoC == ctx.Config.EnableDiceCoC &&
+		vm.Config.EnableDiceFate == ctx.Config.EnableDiceFate && vm.Config.EnableDiceDoubleCross == ctx.Config.EnableDiceDoubleCross &&
+		vm.Config.DisableBitwiseOp == ctx.Config.DisableBitwiseOp && vm.Config.DisableStmts == ctx.Config.DisableStmts &&
+		vm.Config.DisableNDice == ctx.Config.DisableNDice && vm.Config.OpCountLimit == ctx.Config.OpCountLimit &&
+		vm.Config.ParseExprLimit == ctx.Config.ParseExprLimit && vm.Config.DefaultDiceSideExpr == ctx.Config.DefaultDiceSideExpr &&
+		vm.Config.IgnoreDiv0 == ctx.Config.IgnoreDiv0 && vm.Config.DiceMinMode == ctx.Config.DiceMinMode &&
+		vm.Config.DiceMaxMode == ctx.Config.DiceMaxMode && vm.RandSrc == ctx.RandSrc && vm.UpCtx == ctx
+}
+
 // specMax0(x): x when positive, else 0
 func specMax0(x int) int {
 	if x > 0 {
@@ -1541,10 +1554,12 @@ func (*Context).Run
   ensures ctx.Error == nil ==> len(ctx.stack) == 1000 && 0 <= ctx.top && ctx.top <= 1000 && (ctx.top > 0 ==> wfValue(&ctx.stack[ctx.top-1]))
 
 func (*VMValue).FuncInvokeRaw
-  props C07 C06 C01
+  props C07 C06 C01 C15 C16
   requires ctx != nil && v.TypeId == VMTypeFunction && 0 <= ctx.NumOpCount && ctx.NumOpCount <= math.MaxInt64 - 100
   requires ctx.Attrs != nil
   ghost at precall 1 vm.evaluate: ghostAssume(0 <= vm.codeIndex && vm.codeIndex <= len(vm.code) && forall(0, vm.codeIndex, func(k int) bool { return wfInstr(&vm.code[k], k, vm.codeIndex) }) && forall(0, vm.codeIndex, func(k int) bool { return implies(vm.code[k].T == typeDetailMark, 0 <= vm.code[k].Value.(BufferSpan).Begin && vm.code[k].Value.(BufferSpan).Begin <= vm.code[k].Value.(BufferSpan).End && vm.code[k].Value.(BufferSpan).End <= IntType(len(vm.parser.data))) }), "the cached code of a function body was compiled by this package's parser from cd.Expr (well-formed, detail spans rebased into the body text: C08)")
+  ghost at precall 1 vm.evaluate: ghostAssert(specInherits(vm, ctx))
+  ghost at precall 1 vm.Run: ghostAssert(specInherits(vm, ctx))
   ensures [C07] result != nil ==> ctx.NumOpCount == vm.NumOpCount
   ensures result == nil ==> ctx.Error != nil
   loop 1
@@ -1555,9 +1570,11 @@ func (*Context).makeDetailStr
   noverify
 
 func (*VMValue).ComputedExecute
-  props C07 C06 C01
+  props C07 C06 C01 C15 C16
   requires ctx != nil && v.TypeId == VMTypeComputedValue && 0 <= ctx.NumOpCount && ctx.NumOpCount <= math.MaxInt64 - 100
   ghost at precall 1 vm.evaluate: ghostAssume(0 <= vm.codeIndex && vm.codeIndex <= len(vm.code) && forall(0, vm.codeIndex, func(k int) bool { return wfInstr(&vm.code[k], k, vm.codeIndex) }) && forall(0, vm.codeIndex, func(k int) bool { return implies(vm.code[k].T == typeDetailMark, 0 <= vm.code[k].Value.(BufferSpan).Begin && vm.code[k].Value.(BufferSpan).Begin <= vm.code[k].Value.(BufferSpan).End && vm.code[k].Value.(BufferSpan).End <= IntType(len(vm.parser.data))) }), "the cached code of a computed value was compiled by this package's parser from cd.Expr (well-formed, detail spans rebased into the expression text: C08)")
+  ghost at precall 1 vm.evaluate: ghostAssert(specInherits(vm, ctx))
+  ghost at precall 1 vm.Run: ghostAssert(specInherits(vm, ctx))
   ensures [C07] result != nil ==> ctx.NumOpCount == vm.NumOpCount
   ensures result == nil ==> ctx.Error != nil
 
